@@ -31,7 +31,9 @@ HARNESSES = [
 GROUPS = {"body": "check_body", "big": "check_big", "reload": "check_reload"}
 EXPLAIN = {"body": "explain_body", "big": "explain_big", "reload": "explain_reload"}
 CASES = {"quick": 500, "thorough": 6000}
-RULE = ("one case in 10 has a pool retryPolicy (2 attempts) + failureCodes and a backend that fails the first attempt after reading the body, with buffered "
+RULE = ("limits include negative values other than -1 (-2, -1024, MinInt64+1: any negative streams); one case in 10 (and 1 in 5 of the ordinary ones) has a "
+        "mirrorPool on a second recording backend whose filter matches requests carrying X-Mirror, with streamed and buffered, announced and chunked uploads up to 70000 bytes; "
+        "one case in 10 has a pool retryPolicy (2 attempts) + failureCodes and a backend that fails the first attempt after reading the body, with buffered "
         "and streamed (-1) requests of 0..5000 bytes, announced and chunked; one case in 8 is a reload history: one mux, 2-4 generations of HTTPServer specs that differ only in the server / path limits (0, -1, positive; "
         "most often only the server-level value, path left at 0), 1-3 requests per generation with bodies at limit-1 / limit / limit+1 of EVERY generation, "
         "announced and chunked; one case in 4 has proxy `compression` (minLength 0/20/100) x client Accept-Encoding absent / gzip / list / */* / identity / br "
@@ -195,6 +197,9 @@ def distribution(cases):
             d["compression"] = d.get("compression", 0) + 1
         if i.get("retry"):
             d["retry"] = d.get("retry", 0) + 1
+        if i.get("mirror"):
+            d["mirror"] = d.get("mirror", 0) + 1
+            d["mirror_hit"] = d.get("mirror_hit", 0) + bool(i.get("mirrorHit"))
         d["req_enc"][i["reqEnc"]] = d["req_enc"].get(i["reqEnc"], 0) + 1
         d["resp_enc"][i["respEnc"]] = d["resp_enc"].get(i["respEnc"], 0) + 1
         s = str(o.get("status"))
